@@ -551,7 +551,98 @@ def check_lexicase_uninformative_case(h: Harness):
                 remaining.remove(w)
 
 
+def check_real_trees_tiny_fitness(h: Harness):
+    """tournaments over REAL tree programs (labelled nodes, different depths) whose fitness values are residual errors of the order of
+    1e-26: the winner of every tournament is judged by the value the fitness function gives to each participant's program -- nothing else
+    about a program (its depth, its size) takes part"""
+    import zlib
+    rng = h.rng
+    for trial in range(h.n(30, 300)):
+        g, r, rep = sc.tree_setup(rng.randrange(1000))
+        minimize = trial % 2 == 0
+        unit = rng.choice([1e-26, 1e-25, 3e-27, 1.0])
+
+        def ff(p, unit=unit):
+            return float(zlib.crc32(repr(p).encode()) % 9 + 1) * unit
+        problem = SingleObjectiveProblem(ff, minimize=minimize)
+        inds = [Individual(rep.create_genotype(r), rep) for _ in range(rng.randint(4, 9))]
+        ts = rng.choice([2, 3])
+        k = rng.randint(1, len(inds))
+        src = Recording(NativeRandomSource(rng.randrange(10**6)))
+        try:
+            res = list(TournamentSelection(ts, with_replacement=True).apply(problem, SequentialEvaluator(), rep, src, list(inds), k, 0))
+        except Exception as e:  # noqa: BLE001
+            h.fail("TournamentSelection.apply", "raises", f"tournament over real trees raised {type(e).__name__}: {e}", [trial])
+            continue
+        depths = sorted({getattr(i.get_phenotype(), "gengy_distance_to_term", 0) for i in inds})
+        h.seen(f"tiny-real:{trial}:{unit}:{ts}:{k}", nontrivial=len(depths) > 1)
+        h.count("real-tree-tournaments-with-tiny-fitness")
+        for j, win in enumerate(res):
+            parts = src.choices[j * ts:(j + 1) * ts]
+            wv = ff(win.get_phenotype())
+            better = [p for p in parts if (ff(p.get_phenotype()) < wv if minimize else ff(p.get_phenotype()) > wv)]
+            if better or not any(p is win for p in parts):
+                b = better[0] if better else None
+                h.fail("TournamentSelection.apply", "winner-worse-than-participant",
+                       f"tournament {j} of size {ts} over real tree programs ({'min' if minimize else 'max'}imise, fitness values of the order of {unit}): "
+                       f"the winner {win.get_phenotype()} has fitness {wv!r}" + (f", the participant {b.get_phenotype()} has {ff(b.get_phenotype())!r}" if b else ", and is not one of the participants"),
+                       {"trial": trial, "unit": unit, "ts": ts})
+                break
+
+
+def check_epsilon_lexicase_with_missing_values(h: Harness):
+    """epsilon-lexicase on pools in which some candidates have an objective that could not be computed (NaN) -- never the first
+    candidate, which is the best on every case, so that "the best value of the case" is a number: a NaN takes no part in the band of
+    a case (median absolute deviation over the values that exist) and never passes it.  The winner of a selection event is one of
+    the survivors of the filter along the case order that event drew."""
+    import statistics
+    from geneticengine.problems import MultiObjectiveProblem
+    rng = h.rng
+    nan = float("nan")
+    for trial in range(h.n(200, 2000)):
+        n = rng.randint(3, 6)
+        ncases = rng.randint(1, 3)
+        mins = [rng.random() < 0.5 for _ in range(ncases)]
+        rows = [[(0.0 if m else 20.0) for m in mins]]
+        for i in range(1, n):
+            rows.append([nan if rng.random() < 0.3 else float(rng.randint(1, 12)) for _ in range(ncases)])
+        if not any(v != v for row in rows for v in row):
+            rows[-1][rng.randrange(ncases)] = nan
+        problem = MultiObjectiveProblem(list(mins), lambda p: list(p[1]))
+        rep = StubRep(ncases)
+        inds = [Individual((i, row), rep) for i, row in enumerate(rows)]
+        src = Recording(NativeRandomSource(rng.randrange(10**6)))
+        try:
+            res = list(LexicaseSelection(epsilon=True).apply(problem, SequentialEvaluator(), rep, src, list(inds), 1, 0))
+        except Exception as e:  # noqa: BLE001
+            h.fail("LexicaseSelection.apply", "raises", f"epsilon-lexicase on {rows} raised {type(e).__name__}: {e}", [trial])
+            continue
+        order = src.shuffles[0] if src.shuffles else list(range(ncases))
+        alive = list(range(n))
+        for c in order:
+            if len(alive) <= 1:
+                break
+            vals = [rows[i][c] for i in alive if rows[i][c] == rows[i][c]]
+            if not vals:
+                continue
+            med = statistics.median(vals)
+            mad = statistics.median([abs(v - med) for v in vals])
+            best = min(vals) if mins[c] else max(vals)
+            keep = [i for i in alive if rows[i][c] == rows[i][c] and (rows[i][c] <= best + mad if mins[c] else rows[i][c] >= best - mad)]
+            if keep:
+                alive = keep
+        h.seen(f"eps-nan:{rows}:{mins}:{order}", nontrivial=len(alive) < n)
+        h.count("epsilon-lexicase-with-missing-values")
+        w = res[0].genotype[0] if res else None
+        if w not in alive:
+            h.fail("LexicaseSelection.apply", "winner-not-a-lexicase-survivor",
+                   f"LexicaseSelection(epsilon=True) on components {rows} (minimize={mins}), case order {order}: the winner is candidate {w}, "
+                   f"the survivors of the filter along that order are {alive}", {"rows": [[None if v != v else v for v in r_] for r_ in rows], "mins": mins, "order": order})
+
+
 def run(h: Harness):
+    check_real_trees_tiny_fitness(h)
+    check_epsilon_lexicase_with_missing_values(h)
     check_partly_evaluated_pools(h)
     check_lexicase_uninformative_case(h)
     check_scale_invariance(h)
